@@ -76,3 +76,96 @@ func runSpecial(c *sup.Child, b sup.Batch) {
 }
 
 var _ = fmt.Sprintf
+
+// reuse: one Environments object lives through several generations of the start-up script, as
+// the one of a long-running application does: configure, build a script, change and add variables
+// with Set (or replace everything with SetAll), build the next script. Every script must set
+// exactly what is configured at the time it is built.
+func runReuse(c *sup.Child, b sup.Batch) {
+	variant := b.PS("variant", vContainer)
+	for idx := b.From; idx < b.To; idx++ {
+		rng := c.Rand(idx)
+		names := genNames(rng, 2+rng.Intn(6))
+		m := map[string]string{}
+		for i, k := range names {
+			m[k] = genValue(rng, names, i)
+		}
+		useSetAll := rng.Intn(2) == 0
+		gens := 2 + rng.Intn(2)
+		desc := map[string]any{"kind": "reuse", "variant": variant, "env": quoteMap(m), "setall_first": useSetAll, "generations": gens}
+		c.Case(idx, desc, func(r *sup.CaseResult) {
+			if why := calibrate(); why != "" {
+				r.Inconclusive = why
+				return
+			}
+			e, err := newEnvs(m, useSetAll)
+			if err != nil {
+				r.Inconclusive = "a name made of letters and underscores was rejected: " + err.Error()
+				return
+			}
+			cur := map[string]string{}
+			for k, v := range m {
+				cur[k] = v
+			}
+			budget := maxViol
+			for g := 0; g < gens; g++ {
+				if g > 0 {
+					// change one variable and add one through Set; now and then SetAll of a second map
+					k := names[rng.Intn(len(names))]
+					v := genValue(rng, names, 0)
+					nk := fmt.Sprintf("added_%c%c", 'a'+rune(g), 'a'+rune(rng.Intn(26)))
+					nv := genValue(rng, names, 0)
+					if rng.Intn(4) == 0 {
+						if err := e.SetAll(map[string]string{k: v, nk: nv}); err != nil {
+							r.Inconclusive = "SetAll refused plain names: " + err.Error()
+							return
+						}
+					} else {
+						if err := e.Set(k, v); err != nil {
+							r.Inconclusive = "Set refused a plain name: " + err.Error()
+							return
+						}
+						if err := e.Set(nk, nv); err != nil {
+							r.Inconclusive = "Set refused a plain name: " + err.Error()
+							return
+						}
+					}
+					cur[k], cur[nk] = v, nv
+				}
+				if all := e.All(); len(all) != len(cur) {
+					r.Violate("configured-map-lost", fmt.Sprintf("[%s sandbox] generation %d: All() returns %d variables, %d are configured", variant, g, len(all), len(cur)), nil)
+					return
+				}
+				script, err := buildScript(variant, e)
+				if err != nil {
+					r.Inconclusive = "script builder failed: " + err.Error()
+					return
+				}
+				o := feed(variant, script, cur)
+				if o.inc != "" {
+					r.Inconclusive = o.inc
+					return
+				}
+				r.AddObs("shell_runs", 1)
+				wantOf := dashWant(cur, script)
+				ps := judge(cur, o, wantOf)
+				for i := range ps {
+					ps[i].detail = fmt.Sprintf("generation %d of one Environments object: %s", g, ps[i].detail)
+				}
+				snapshot := map[string]string{}
+				for k, v := range cur {
+					snapshot[k] = v
+				}
+				report(r, variant, snapshot, script, o, ps, false, &budget)
+				if g > 0 {
+					r.AddObs("scripts_built_after_a_later_Set_"+variant, 1)
+				}
+				if len(ps) > 0 {
+					return
+				}
+			}
+			r.Key = canonical("reuse|"+variant, cur)
+			r.Nontrivial = true
+		})
+	}
+}
